@@ -5,7 +5,7 @@
     function [pubsuf], an arbitrary TXT suffix and cache time. *)
 From Coq Require Import ZArith List.
 From AGH Require Import Base.Run Base.Bytes Model.HashPrefix Proofs.HashPrefix Proofs.HashPrefixMatch
-  Model.HashPrefixBytes Proofs.HashPrefixBytes.
+  Model.HashPrefixBytes Proofs.HashPrefixBytes Model.HashPrefixLRU Proofs.HashPrefixHist Proofs.HashPrefixLRU.
 Import ListNotations.
 
 (** The question is the hex of the 2-byte prefixes, each followed by a dot,
@@ -299,3 +299,238 @@ Example C19_bytes_premises_satisfiable :
       (run Examples.sha Examples.pubsuf Examples.sfx Examples.ct ops45 (0%Z, []))
   = [(10%Z, 0%nat); (42%Z, 0%nat); (42%Z, 0%nat)].
 Proof. exact set_example. Qed.
+
+(** ** The database changes between checks (round 4) *)
+
+(** What is asked, for every cache content (no invariant), service, map order
+    and eviction behaviour: if a question is sent, it holds exactly the prefixes
+    of the enumerated names that have no entry or an expired one, one label per
+    such name in the order of the names, and nothing else. *)
+Theorem C19_question_exact : forall sha pubsuf suffix cache_time svc order evs now host c q,
+  o_question (snd (check sha pubsuf suffix cache_time svc order evs now host c)) = Some q ->
+  unanswered sha pubsuf now c host <> [] /\
+  q = question suffix (unanswered sha pubsuf now c host).
+Proof. exact question_exact. Qed.
+Print Assumptions C19_question_exact.
+
+(** A name the service lists NOW and for whose prefix the cache holds no valid
+    entry blocks the host, whatever else the cache holds (valid entries for
+    other names of the chain included), whenever the service answers. *)
+Theorem C19_listed_unanswered_blocks : forall sha pubsuf suffix cache_time db svc order evs now host c h,
+  svc_ok db svc ->
+  In h (hostname_to_hashes sha pubsuf host) -> is_live now c h = false -> In h db ->
+  o_err (snd (check sha pubsuf suffix cache_time svc order evs now host c)) = false ->
+  o_blocked (snd (check sha pubsuf suffix cache_time svc order evs now host c)) = true.
+Proof. exact listed_unanswered_blocks. Qed.
+Print Assumptions C19_listed_unanswered_blocks.
+
+(** One check against the database [db] as it is now, on a cache every entry of
+    which is exact for the database of its snapshot [g p] (the database as it
+    was when the entry was stored): the question is the expected one, the
+    verdict judges every enumerated name by the snapshot of its prefix if the
+    entry is valid and by [db] otherwise, and afterwards every entry is exact
+    for its snapshot again, the rewritten ones having [db]. *)
+Theorem C19_changing_db_check : forall sha pubsuf suffix cache_time db g svc order evs now host c,
+  snap_inv g c -> svc_ok db svc ->
+  let res := check sha pubsuf suffix cache_time svc order evs now host c in
+  snap_inv (snap_step db c (fst res) g) (fst res) /\
+  o_question (snd res) = expected_question sha pubsuf suffix g now c host /\
+  (o_err (snd res) = false -> o_blocked (snd res) = snap_verdict sha pubsuf g db now c host) /\
+  (o_err (snd res) = true -> fst res = c /\ o_blocked (snd res) = false).
+Proof. exact check_snap. Qed.
+Print Assumptions C19_changing_db_check.
+
+(** The verdict in terms of names. *)
+Theorem C19_snap_verdict : forall sha pubsuf g db now c host,
+  snap_verdict sha pubsuf g db now c host = true <->
+  exists n, In n (names_to_hash pubsuf host) /\
+            (is_live now c (sha n) = true -> In (sha n) (g (prefix_of (sha n)))) /\
+            (is_live now c (sha n) = false -> In (sha n) db).
+Proof. exact snap_verdict_spec. Qed.
+Print Assumptions C19_snap_verdict.
+
+(** If the snapshots of the valid entries say about the enumerated names what
+    the database says now, the verdict is the one of a lookup with an empty
+    cache. *)
+Theorem C19_snap_verdict_current : forall sha pubsuf g db now c host,
+  (forall h, In h (hostname_to_hashes sha pubsuf host) -> is_live now c h = true ->
+             (In h (g (prefix_of h)) <-> In h db)) ->
+  snap_verdict sha pubsuf g db now c host = db_verdict sha pubsuf db host.
+Proof. exact snap_verdict_current. Qed.
+Print Assumptions C19_snap_verdict_current.
+
+(** Cache transparency with a changing database: for every history of checks
+    (each against a service for the database as it is at that point; failing
+    services, malformed strings, any map order, any eviction at any [Set]),
+    clock changes, evictions and replacements of the database, from an empty
+    cache: every check asks and answers as [C19_changing_db_check] says, with
+    the snapshots kept by [snap_next]. *)
+Theorem C19_changing_db_transparent : forall sha pubsuf suffix cache_time ops db0 now0,
+  hops_ok db0 ops ->
+  hist_ok sha pubsuf suffix (fun _ => db0) (db0, (now0, [])) ops
+          (hrun sha pubsuf suffix cache_time ops (db0, (now0, []))).
+Proof. exact changing_db_transparent. Qed.
+Print Assumptions C19_changing_db_transparent.
+
+(** The theorem of round 1 ([C19_cache_transparent]) as the special case of a
+    history without database changes. *)
+Theorem C19_cache_transparent_constant_db : forall sha pubsuf suffix cache_time db ops now0,
+  Forall hash_wf db -> Forall (op_ok db) ops ->
+  forall now', history_transparent (fresh_verdict sha pubsuf suffix cache_time db now')
+                 (now0, []) ops (run sha pubsuf suffix cache_time ops (now0, [])).
+Proof. exact constant_db_transparent. Qed.
+Print Assumptions C19_cache_transparent_constant_db.
+
+(** Non-vacuity: the parent is checked, later the child, the service lists the
+    parent, the parent's entry expires first: its prefix alone is asked and the
+    child is blocked; the service drops the name, the cache goes on blocking
+    until the entries expire. *)
+Example C19_changing_db_premises_satisfiable :
+  hops_ok [] HistExample.ops /\
+  map (fun r => match snd r with
+                | Some o => Some (o_blocked o, match o_question o with
+                                               | Some q => Some (length q)
+                                               | None => None end)
+                | None => None end)
+      (hrun Examples.sha Examples.pubsuf Examples.sfx Examples.ct HistExample.ops ([], (0%Z, [])))
+  = [Some (false, Some 8%nat); None; Some (false, Some 8%nat); None; Some (false, None); None;
+     Some (true, Some 8%nat); None; Some (true, None); None; Some (false, Some 13%nat)].
+Proof. exact hist_example. Qed.
+
+(** [findInCache] without the write [hashes[i] = hash] in the "expired" branch
+    (red-team change C19-G): with the child's entry valid and the parent's
+    expired it asks for the child's hash again and not for the parent's. *)
+Theorem C19_expired_slot_not_written_refuted :
+  let chain := hostname_to_hashes Examples.sha Examples.pubsuf Examples.host1 in
+  let c : cache := [(prefix_of (Examples.sha HistExample.c_evil), {| c_expiry := 5450; c_hashes := [] |});
+                    (prefix_of (Examples.sha Examples.evil), {| c_expiry := 3650; c_hashes := [] |})] in
+  let now := (3700 * ns_sec)%Z in
+  chain = [Examples.sha HistExample.c_evil; Examples.sha Examples.evil] /\
+  unanswered Examples.sha Examples.pubsuf now c Examples.host1 = [Examples.sha Examples.evil] /\
+  find_in_cache now c chain = ToRequest [Examples.sha Examples.evil] /\
+  HistExample.fic_loop_G now c (length chain) 0 chain 0 = ToRequest [Examples.sha HistExample.c_evil].
+Proof. exact expired_slot_not_written_refuted. Qed.
+Print Assumptions C19_expired_slot_not_written_refuted.
+
+(** ** The library cache (round 4): golibs cache with EnableLRU and MaxSize *)
+
+(** For every sequence of [Get], [Set] and [Del]: keys stay unique, the byte
+    counter is the sum of the elements, the sum is within the configured size
+    ([eff_max]: 0 means the largest uint), and the contents are those of the
+    finite map of Model/HashPrefix.v under the same operations, a [Set] being
+    [cset_o] with the keys the library deleted for it and whether it kept the
+    element. *)
+Theorem C19_lru_refines_map : forall max, (0 <= max)%Z -> forall ops l c,
+  lru_ok max l -> ceq (l_items l) c ->
+  let r := fold_left (fun lc o => (lop_step max o (fst lc), lop_abs max o (fst lc) (snd lc))) ops (l, c) in
+  lru_ok max (fst r) /\ ceq (l_items (fst r)) (snd r).
+Proof. exact lops_refine. Qed.
+Print Assumptions C19_lru_refines_map.
+
+Theorem C19_lru_get : forall max p l, lru_ok max l ->
+  lru_ok max (fst (lru_get p l)) /\
+  ceq (l_items (fst (lru_get p l))) (l_items l) /\
+  snd (lru_get p l) = cget p (l_items l).
+Proof. exact lru_get_ok. Qed.
+Print Assumptions C19_lru_get.
+
+(** One [Set]; an element that is not kept is larger than the whole cache, and
+    then nothing at all changes. *)
+Theorem C19_lru_set : forall max p it l, (0 <= max)%Z -> lru_ok max l ->
+  let l' := fst (lru_set max p it l) in
+  let e := snd (lru_set max p it l) in
+  lru_ok max l' /\ ceq (l_items l') (cset_o e p it (l_items l)) /\
+  (snd e = false -> l' = l /\ fst e = [] /\ (entry_bytes p it > eff_max max)%Z).
+Proof. exact lru_set_ok. Qed.
+Print Assumptions C19_lru_set.
+
+(** The size condition round 3 asked of every recorded [Set] ([set_fits]:
+    refused iff larger than the cache, otherwise exactly as many deletions as
+    needed) holds for every [Set] of the library cache. *)
+Theorem C19_lru_set_fits : forall max p it l, (0 < max)%Z -> lru_ok max l ->
+  set_fits max (snd (lru_set max p it l)) p it (l_items l) = true.
+Proof. exact lru_set_fits. Qed.
+Print Assumptions C19_lru_set_fits.
+
+(** [Check] on the library cache is [Check] on its map with the events the
+    library produces. *)
+Theorem C19_check_on_lru : forall max, (0 <= max)%Z ->
+  forall sha pubsuf suffix cache_time svc order now host l, lru_ok max l ->
+  let '(l', out, es) := check_lru sha pubsuf suffix cache_time max svc order now host l in
+  lru_ok max l' /\
+  ceq (l_items l') (fst (check sha pubsuf suffix cache_time svc order es now host (l_items l))) /\
+  snd (check sha pubsuf suffix cache_time svc order es now host (l_items l)) = out.
+Proof. exact check_lru_sim. Qed.
+Print Assumptions C19_check_on_lru.
+
+(** ... and so for whole histories. *)
+Theorem C19_run_lru_refines : forall max, (0 <= max)%Z ->
+  forall sha pubsuf suffix cache_time ops now l c, lru_ok max l -> ceq (l_items l) c ->
+  Forall2 (res_agree max)
+    (run_lru sha pubsuf suffix cache_time max ops (now, l))
+    (run sha pubsuf suffix cache_time (with_lru_events sha pubsuf suffix cache_time max ops (now, l)) (now, c)).
+Proof. exact run_lru_refines. Qed.
+Print Assumptions C19_run_lru_refines.
+
+(** The cache never exceeds the configured size, through every history and
+    whatever the service answers: no condition on the [Set]s any more
+    (compare [C19_cache_within_size]). *)
+Theorem C19_lru_within_size : forall max, (0 <= max)%Z ->
+  forall sha pubsuf suffix cache_time ops st, lru_ok max (snd (snd st)) ->
+  Forall (fun r => lru_ok max (snd (snd (fst (fst r)))))
+         (hrun_lru sha pubsuf suffix cache_time max ops st).
+Proof. exact hrun_lru_within_size. Qed.
+Print Assumptions C19_lru_within_size.
+
+(** Cache transparency on the library cache with a changing database. *)
+Theorem C19_lru_changing_db_transparent : forall max, (0 <= max)%Z ->
+  forall sha pubsuf suffix cache_time ops db0 now0,
+  hops_ok db0 ops ->
+  hist_ok_lru max sha pubsuf suffix (fun _ => db0) (db0, (now0, lru_empty)) ops
+              (hrun_lru sha pubsuf suffix cache_time max ops (db0, (now0, lru_empty))).
+Proof. exact lru_changing_db_transparent. Qed.
+Print Assumptions C19_lru_changing_db_transparent.
+
+(** An element larger than the whole cache (two hashes under one prefix, 74
+    bytes, cache of 45): the library refuses it and deletes nothing; the store
+    as it is leaves no entry and every check goes upstream and blocks; the
+    second loop of before commit c62e74a stores an empty entry and the next
+    check says "clean" from the cache for a listed name. *)
+Theorem C19_refused_element_prefix_store_refuted :
+  let it2 := {| c_expiry := 3650; c_hashes := LRUExample.db2 |} in
+  let p := prefix_of (Examples.sha Examples.evil) in
+  entry_bytes p it2 = 74%Z /\
+  lru_set 45 p it2 lru_empty = (lru_empty, ([], false)) /\
+  hops_ok LRUExample.db2 LRUExample.ops2 /\
+  map (fun r => (match snd (fst r) with
+                 | Some o => Some (o_blocked o, match o_question o with Some _ => true | None => false end)
+                 | None => None end, snd r, map fst (l_items (snd (snd (fst (fst r)))))))
+      (hrun_lru Examples.sha Examples.pubsuf Examples.sfx Examples.ct 45 LRUExample.ops2
+                (LRUExample.db2, (0%Z, lru_empty)))
+  = [(Some (true, true), [([], false)], []);
+     (Some (true, true), [([], false)], []);
+     (Some (true, true), [([], false); ([], true)], [prefix_of (Examples.sha HistExample.c_evil)])] /\
+  let l := LRUExample.store_neg_lru_prefix 45 3650 [Examples.sha Examples.evil]
+             (fst (lru_set 45 p it2 lru_empty)) in
+  o_blocked (snd (fst (check_lru Examples.sha Examples.pubsuf Examples.sfx Examples.ct 45
+                         (db_service LRUExample.db2) LRUExample.ord 0 Examples.evil l))) = false /\
+  o_question (snd (fst (check_lru Examples.sha Examples.pubsuf Examples.sfx Examples.ct 45
+                         (db_service LRUExample.db2) LRUExample.ord 0 Examples.evil l))) = None /\
+  db_verdict Examples.sha Examples.pubsuf LRUExample.db2 Examples.evil = true.
+Proof. exact refused_element. Qed.
+Print Assumptions C19_refused_element_prefix_store_refuted.
+
+(** Non-vacuity of the order: four elements of 10 bytes in 45 bytes, the first
+    read again: the fifth pushes out the second; one of 42 bytes pushes out
+    all four. *)
+Example C19_lru_order_premises_satisfiable :
+  let neg := {| c_expiry := 3650; c_hashes := [] |} in
+  let k (i : Z) : prefix := [Z.to_N i; Z.to_N i] in
+  let ops := [LSet (k 1%Z) neg; LSet (k 2%Z) neg; LSet (k 3%Z) neg; LSet (k 4%Z) neg; LGet (k 1%Z);
+              LSet (k 5%Z) neg; LSet (k 6%Z) {| c_expiry := 3650; c_hashes := [repeat 7%N 32] |}] in
+  map (fun l => (map fst (l_items l), l_size l))
+      (snd (fold_left (fun (a : lru * list lru) o => let l := lop_step 45 o (fst a) in (l, snd a ++ [l]))
+                      ops (lru_empty, [])))
+  = [([k 1%Z], 10); ([k 1%Z; k 2%Z], 20); ([k 1%Z; k 2%Z; k 3%Z], 30); ([k 1%Z; k 2%Z; k 3%Z; k 4%Z], 40);
+     ([k 2%Z; k 3%Z; k 4%Z; k 1%Z], 40); ([k 3%Z; k 4%Z; k 1%Z; k 5%Z], 40); ([k 6%Z], 42)]%Z.
+Proof. exact lru_order_example. Qed.
